@@ -56,13 +56,15 @@ LOOK = ['skip_dec', 'skip_body', 'xfail',
         {'s': 'pass', 'w': [['fd2', 'noise from a test\n', False]]},
         {'s': 'pass', 'w': [['fd2', '0 0 0\n', False]]},
         {'s': 'pass', 'w': [['fd2', '1 2\n1 2 x\n', False]]},
+        # lines that end / begin with three integers but are no header
+        {'s': 'pass', 'w': [['fd2', 'cache statistics (hits misses evictions): 12 0 0\n7 0 0 requests queued\n', False]]},
         {'s': 'pass', 'w': [['o', 'Traceback (most recent call last):\nError in test fake\n', False]]},
         # bytes that are not UTF-8 on the real fd 2 (a C library, a legacy locale)
         {'s': 'pass', 'w': [['fd2b', 'caf\xe9 \xff\xfe\n', False]]}]
 MODES = {'j20': ['-j20'], 'rep2': ['--repeat', '2'], 'j2rep2': ['-j2', '--repeat', '2'], 'rep3v': ['--repeat', '3', '-v'],
          'seq': [], 'j1': ['-j1'], 'j2': ['-j2'], 'j3': ['-j3'], 'v': ['-v'],
          'j2vv': ['-j2', '-vv'], 't': ['-t', 'q0|q1'], 'lvl': ['--only-level', '1'],
-         'j2t': ['-j2', '-t', 'q1|q2']}
+         'j2t': ['-j2', '-t', 'q1|q2'], 'q': ['-q'], 'j2q': ['-j2', '--quiet']}
 
 
 def _o_filter(case):
@@ -111,7 +113,7 @@ def _items(tier):
 
 
 def cases(tier, seed):
-    modes = ['seq', 'j1', 'j2', 'j3', 'v', 'j2vv', 't', 'lvl', 'j2t']
+    modes = ['seq', 'j1', 'j2', 'j3', 'v', 'j2vv', 't', 'lvl', 'j2t', 'q', 'j2q']
     for shape, sc, lf, bm in _items(tier):
         for m in worlds.rot(modes, seed):
             yield [shape, sc, lf, bm, m, None]
